@@ -23,6 +23,7 @@ LOCAL_KINDS = {
     'force_schedule', 'condition_schedule', 'dependency', 'force_n',
     'not', 'or', 'and', 'xor', 'implies', 'if_then_else', 'expression', 'force_apply_n',
     'unavailable', 'workload', 'interrupted_fixed', 'same_workers', 'distinct_workers',
+    'periodic_unavailable', 'periodic_interrupted_fixed', 'non_delay', 'distance', 'contiguous_disjoint', 'contiguous_successor',
     # C08: follow from the indicator's own assertions
     'expression', 'utilization', 'nb_tasks_assigned', 'tardiness', 'earliness', 'nb_tardy', 'max_lateness_bound',
     'max_lateness_attained', 'resource_cost', 'max_buffer_bound', 'max_buffer_attained', 'min_buffer_bound',
@@ -132,6 +133,10 @@ def check_one(args):
                 elif res == 'unknown':
                     out['unknown'] += 1
             out['n_spec'] = len(goals)
+            kk = {}
+            for k, _ in goals:
+                kk[k.split('/')[-1]] = kk.get(k.split('/')[-1], 0) + 1
+            out['spec_kinds'] = kk
     except Exception as e:  # harness failure: reported, never silently dropped
         out['error'] = ''.join(traceback.format_exception_only(type(e), e))[-400:] + traceback.format_exc()[-1200:]
     return out
